@@ -35,6 +35,8 @@ func Analyse(def *Def, cfg load.Config, tier string) ([]chk.Obligation, int) {
 	reportAnchorProblems(c, def.ID)
 	if !fa.Fixed {
 		c.Undecided("ENGINE", nil, "facts fixpoint", 0, "lockset analysis did not reach a fixpoint")
+	} else if len(fa.Notes) > 0 {
+		c.Pass("ENGINE", nil, "facts fixpoint", 0, "lockset / nil-state analysis: %s; %d pure forwarders read as the function they stand for", fa.Notes[len(fa.Notes)-1], p.Forwarders())
 	}
 	for _, b := range fa.CheckSingleRoot() {
 		c.Undecided("ENGINE", nil, b, 0, "path-keyed facts are ambiguous: %s", b)
@@ -43,6 +45,7 @@ func Analyse(def *Def, cfg load.Config, tier string) ([]chk.Obligation, int) {
 		DebugReader(c)
 	}
 	def.Run(c, tier)
+	runShared(c, def.ID, tier)
 	c.Finish()
 	return c.Obs, len(lp.Funcs)
 }
@@ -302,6 +305,7 @@ func AnalyseAll(cfg load.Config) map[string][]chk.Obligation {
 				c.Undecided("ENGINE", nil, b, 0, "path-keyed facts are ambiguous: %s", b)
 			}
 			registry[id].Run(c, "quick")
+			runShared(c, id, "quick")
 			c.Finish()
 			out[id] = c.Obs
 		}()
@@ -406,6 +410,7 @@ func AnchorDeps(cfg load.Config) string {
 		}()
 		c := &chk.Ctx{P: p, F: fa, M: m}
 		def.Run(c, "quick")
+		runShared(c, def.ID, "quick")
 		c.Finish()
 		var ks []string
 		for _, o := range c.Obs {
